@@ -371,9 +371,13 @@ def w5_roundtrip(task, tier, seed):
     for i, val in enumerate(const_table()):
         nm = f"C01.emit.wellformed.W5[{i}]"
         desc = repr(val) if not (isinstance(val, int) and abs(val) > 10 ** 30) else "<int with 5001 digits>"
+        if not C.has_safe_repr(val) and not (isinstance(val, float) or (isinstance(val, int) and abs(val) < 10 ** 4000)):
+            # neither a literal the lexer can produce nor a value constant folding accepts: no Const node carries it
+            rs.append(Res(nm, "bounded-ok", "native", 0, f"{desc}: rejected by has_safe_repr, not a literal", "bounded"))
+            continue
         try:
             txt = emit_const(val)
-            back = eval(compile(txt.strip(), "<const>", "eval"), {"__builtins__": {}}, {})
+            back = eval(compile(txt.strip(), "<const>", "eval"), {"__builtins__": {"float": float}}, {})
             ok = same_const(back, val)
             detail = f"visit_Const({desc}) wrote {txt.strip()[:60]!r}" + ("" if ok else f" which evaluates to {back!r:.60}")
         except BaseException as ex:  # noqa
@@ -392,13 +396,13 @@ def w5_key(res):
 def replay_const(w):
     key = w.get("const_key")
     srcs = {"non-finite-float": ["{% set x = 1e999 %}{{ x + 1 }}", "{{ -1e999 }}", "{{ 1e999 - 1e999 }}"],
-            "int-digit-limit": ["{{ 10 ** 5000 }}"]}.get(key, [])
+            "int-digit-limit": ["{{ (10 ** 5000) > 1 }}", "{% set x = 10 ** 5000 %}{{ x > 1 }}"]}.get(key, [])
     idx = w.get("index")
     if not srcs and idx is not None:
         val = const_table()[idx]
         try:
             txt = emit_const(val)
-            back = eval(compile(txt.strip(), "<const>", "eval"), {"__builtins__": {}}, {})
+            back = eval(compile(txt.strip(), "<const>", "eval"), {"__builtins__": {"float": float}}, {})
             return (not same_const(back, val), f"visit_Const wrote {txt.strip()[:60]!r} -> {back!r:.60}")
         except BaseException as ex:  # noqa
             return (True, f"{type(ex).__name__}: {ex}")
@@ -773,6 +777,35 @@ def _stack_depth():
     return n
 
 
+def _quiet_unraisable(*a):
+    pass
+
+
+def _mute_stderr():
+    """the interpreter itself reports exceptions it cannot raise (generator close during a RecursionError) on fd 2"""
+    import os
+    try:
+        sys.stderr.flush()
+        saved = os.dup(2)
+        devnull = os.open(os.devnull, os.O_WRONLY)
+        os.dup2(devnull, 2)
+        os.close(devnull)
+        return saved
+    except OSError:
+        return None
+
+
+def _unmute_stderr(saved):
+    import os
+    if saved is not None:
+        try:
+            sys.stderr.flush()
+        except Exception:
+            pass
+        os.dup2(saved, 2)
+        os.close(saved)
+
+
 def recursion_depth(task, tier, seed):
     """resource clause A5 (F10): for each nesting / chaining construct, nothing bounds the recursion of parser / optimizer /
     code generator or converts RecursionError.  The frames needed per level are measured with a reduced recursion limit
@@ -781,6 +814,8 @@ def recursion_depth(task, tier, seed):
     rs = []
     old = sys.getrecursionlimit()
     budget = 260
+    sys.unraisablehook = _quiet_unraisable  # generators closed during a RecursionError print "Exception ignored" noise
+    stderr_fd = _mute_stderr()
     for construct in RECURSION_CONSTRUCTS:
         try:
             sys.setrecursionlimit(_stack_depth() + budget)
@@ -814,6 +849,7 @@ def recursion_depth(task, tier, seed):
         rs.append(Res("C01.bounded.recursion", "refuted", "native", 0,
                       f"{construct}: depth {d} -> {what} under the default recursion limit {old} (first failure estimated near depth {est}); e.g. {RECURSION_CONSTRUCTS[construct](3)}",
                       "bounded", {"construct": construct, "depth": d, "raises": what}))
+    _unmute_stderr(stderr_fd)
     task.bound_text = f"{len(RECURSION_CONSTRUCTS)} constructs; frames per level measured with {budget} spare frames, confirmed at 1.5x the extrapolated depth"
     return rs
 
